@@ -17,20 +17,23 @@ Proof. exact store_refines_spec. Qed.
    the store had when i was the frontier — whatever commits, rollbacks, evictions and other views come after *)
 Theorem C07_get_exact : forall pre v i post k e,
   wf_ops ast_init (pre ++ [OGet v i] ++ post ++ [OVGet v k]) ->
-  a_find (a_chain (afinal ast_init pre)) i = Some e -> i <> zero_id -> Forall (not_slot v) post ->
+  a_find (a_chain (afinal ast_init pre)) i = Some e -> i <> zero_id ->
+  no_sub_of v (a_views (afinal ast_init pre)) -> Forall (not_slot v) post ->
   last_ans (run st_init (pre ++ [OGet v i] ++ post ++ [OVGet v k])) = Some (AOpt (ce_state e !! k)).
 Proof. exact view_get_exact. Qed.
 
 Theorem C07_has_exact : forall pre v i post k e,
   wf_ops ast_init (pre ++ [OGet v i] ++ post ++ [OVHas v k]) ->
-  a_find (a_chain (afinal ast_init pre)) i = Some e -> i <> zero_id -> Forall (not_slot v) post ->
+  a_find (a_chain (afinal ast_init pre)) i = Some e -> i <> zero_id ->
+  no_sub_of v (a_views (afinal ast_init pre)) -> Forall (not_slot v) post ->
   last_ans (run st_init (pre ++ [OGet v i] ++ post ++ [OVHas v k])) =
   Some (ABool (match ce_state e !! k with Some _ => true | None => false end)).
 Proof. exact view_has_exact. Qed.
 
 Theorem C07_scan_exact : forall pre v i post p e,
   wf_ops ast_init (pre ++ [OGet v i] ++ post ++ [OVScan v p]) ->
-  a_find (a_chain (afinal ast_init pre)) i = Some e -> i <> zero_id -> Forall (not_slot v) post ->
+  a_find (a_chain (afinal ast_init pre)) i = Some e -> i <> zero_id ->
+  no_sub_of v (a_views (afinal ast_init pre)) -> Forall (not_slot v) post ->
   last_ans (run st_init (pre ++ [OGet v i] ++ post ++ [OVScan v p])) = Some (AScan (ascan (ce_state e) p)).
 Proof. exact view_scan_exact. Qed.
 
@@ -52,13 +55,18 @@ Theorem C07_write_seen : forall a v k x la Sm,
   a_views a !! v = Some (ARoot la Sm) -> aget (a_views (fst (astep a (OVPut v k x)))) v !! k = Some x.
 Proof. exact view_write_seen. Qed.
 Theorem C07_write_local : forall a v k x v' la Sm,
-  v' <> v -> a_views a !! v' = Some (ARoot la Sm) ->
+  v' <> v -> no_sub_of v' (a_views a) -> a_views a !! v' = Some (ARoot la Sm) ->
   a_chain (fst (astep a (OVPut v k x))) = a_chain a /\ aget (a_views (fst (astep a (OVPut v k x)))) v' = overlay la Sm.
 Proof. exact view_write_local. Qed.
 Theorem C07_snapshot_sees_parent : forall vs v nv la Sm lb k,
   v <> nv -> vs !! v = Some (ARoot la Sm) -> vs !! nv = Some (ASnap lb v) -> lb !! k = None ->
   aget vs nv !! k = aget vs v !! k.
 Proof. exact snapshot_sees_parent. Qed.
+
+Theorem C07_subset_is_window : forall vs v nv la Sm pre k,
+  v <> nv -> vs !! v = Some (ARoot la Sm) -> vs !! nv = Some (ASub pre v) ->
+  aget vs nv !! k = aget vs v !! (pre ++ k).
+Proof. exact subset_is_window. Qed.
 
 (* the change set of a view replays to exactly its writes and is ordered by key *)
 Theorem C07_changes_replay : forall la Sm, abs_apply Sm (achanges la) = overlay la Sm.
